@@ -5,9 +5,10 @@ CONSTANTS NV = 2
  MaxLst = 0
  Bytes = {44}
  CharSet = {97}
- AttLens = {0, 1, 2}
+ AttLens = {1, 2}
+ ResizeSet = {0, 4}
  CapSet = {4}
  Orig = FALSE
- Skip = {"lower", "printf", "assignlit", "appendc", "cstrm", "compare"}
+ Skip = {"printf", "lower", "assignlit", "appendc", "trim", "prependb", "appendb", "ctorbuf"}
 INVARIANTS RefCountOK NoDangling NoErr TempsDead CapOK RefinementOK ExtUntouched CStrOK
 PROPERTY IndepStep
